@@ -17,6 +17,10 @@ import genesis as G
 
 
 def run(rep, tier, args):
+    rep.extra["rule"] = ("each case is one import run with one or more injected interruptions: every (table, group, "
+                         "hook point) crash point printed by TLC (fail inside a group, cancel at a boundary, loss of "
+                         "the result) for each snapshot encoding/group size, plus seeded multi-interruption walks; "
+                         "distinct = distinct interruption schedule; every case restarts the import until it completes")
     rep.level = "fault_enumeration"
     rep.assumptions += [
         "an interruption is the return of execute_genesis_block with an error (or the loss of its uncommitted "
